@@ -3,9 +3,9 @@
 import ast
 
 from .contracts import SpecEval
-from .terms import (And, Or, Not, Implies, Ite, Eq, asV, asB, asI, asS, mkB, mkI, mkS, TRUE, FALSE,
+from .terms import (mseq, And, Or, Not, Implies, Ite, Eq, asV, asB, asI, asS, mkB, mkI, mkS, TRUE, FALSE,
                     seq_of_terms)
-from .values import (Val, PyC, PyList, SymObj, SDict, Closure, BM, Exc, OutOfSubset, fresh_name)
+from .values import (CondList, Val, PyC, PyList, SymObj, SDict, Closure, BM, Exc, OutOfSubset, fresh_name)
 from .exprs import is_exc
 
 
@@ -71,8 +71,10 @@ class StmtMixin:
                 cur = s.env.get("__yield__", PyList([], "list"))
                 if isinstance(cur, PyList):
                     new = PyList(cur.items + [v], "list")
+                elif isinstance(cur, CondList):
+                    new = CondList(cur.entries + [(TRUE, v)])
                 else:
-                    new = self.named_concat(s, [("seq", f"(seqof {asV(cur)})"), ("unit", asV(self.lift(v)))], "yl")
+                    new = self.named_concat(s, [("seq", f"(seqof {asV(self.lift(cur))})"), ("unit", asV(self.lift(v)))], "yl")
                 s.env = {**s.env, "__yield__": new}
                 out.append((s, None))
             return out
@@ -86,6 +88,8 @@ class StmtMixin:
                 items = self.static_items(v)
                 if isinstance(cur, PyList) and items is not None:
                     new = PyList(cur.items + items, "list")
+                elif isinstance(cur, CondList) and items is not None:
+                    new = CondList(cur.entries + [(TRUE, x) for x in items])
                 else:
                     new = self.named_concat(s, [("seq", f"(seqof {asV(self.lift(cur))})"), ("seq", f"(seqof {asV(self.lift(v))})")], "yl")
                 s.env = {**s.env, "__yield__": new}
@@ -639,10 +643,17 @@ class StmtMixin:
         y = self.yield_loop_as_comprehension(st, n, it)
         if y is not None:
             return y
-        self.loop_ordinal += 1
-        ordinal = self.loop_ordinal
+        # symbolic loops are numbered in order of first encounter; the same loop reached again (another path, an inlined
+        # recursive activation) keeps its number and therefore its invariant
+        key = (n.lineno, n.col_offset, id(n))
+        if not hasattr(self, "_loop_ids") or self.loop_ordinal == 0:
+            self._loop_ids = {}
+        if key not in self._loop_ids:
+            self.loop_ordinal += 1
+            self._loop_ids[key] = self.loop_ordinal
+        ordinal = self._loop_ids[key]
         inv_src = self.contract.invariants.get(ordinal, "True")
-        sq, elem = self.iter_seq_term(it, n)
+        sq, elem = self.iter_seq_term(it, n, st)
         modified = self.assigned_names(n.body) - set(self.target_names(n.target))
         if any(isinstance(x, (ast.Yield, ast.YieldFrom)) for b in n.body for x in ast.walk(b)):
             if "__yield__" not in st.env:
@@ -663,7 +674,7 @@ class StmtMixin:
         # init
         s_init = st
         if "prefix(" in inv_src:
-            s_init = st.fork().assume(f"(= (seq.extract {sq} 0 0) (as seq.empty (Seq V)))", fact=True)      # IS-MEM: prefix ends
+            s_init = st.fork().assume(f"(= (seq.extract {mseq(sq)} 0 0) (as seq.empty (Seq V)))", fact=True)      # IS-MEM: prefix ends
         self.obl("inv-init", n, s_init, inv_at(s_init, "0"), detail=f"loop {ordinal}: {inv_src}")
         # arbitrary iteration
         k = self.declare(fresh_name("k"), "Int")
@@ -681,11 +692,12 @@ class StmtMixin:
         s.assume(inv_at(s, k))
         try:
             if "member" in inv_src or "member" in self.contract.returns:
-                s.assume(f"(ismem {sq} {asV(self.lift(elem(k)))})", fact=True)    # the loop element is a member of the sequence (IS-MEM)
+                s.assume(f"(ismem {mseq(sq)} {asV(self.lift(elem(k)))})", fact=True)    # the loop element is a member of the sequence (IS-MEM)
             if "prefix(" in inv_src:
                 # xs[:k+1] == xs[:k] + [xs[k]], in membership form (IS-MEM: prefix step, concat, unit)
                 x = fresh_name("x")
-                s.assume(f"(forall (({x} V)) (! (= (ismem (seq.extract {sq} 0 (+ {k} 1)) {x}) (or (ismem (seq.extract {sq} 0 {k}) {x}) (= {x} (seq.nth {sq} {k})))) :pattern ((ismem (seq.extract {sq} 0 (+ {k} 1)) {x}))))", fact=True)
+                msq = mseq(sq)
+                s.assume(f"(forall (({x} V)) (! (= (ismem (seq.extract {msq} 0 (+ {k} 1)) {x}) (or (ismem (seq.extract {msq} 0 {k}) {x}) (= {x} (seq.nth {sq} {k})))) :pattern ((ismem (seq.extract {msq} 0 (+ {k} 1)) {x}))))", fact=True)
         except OutOfSubset:
             pass
         self.assign_target(s, n.target, elem(k), n)
@@ -702,14 +714,13 @@ class StmtMixin:
             # a callee mutated a container held in a local the syntactic scan did not see: redo the loop with it havocked
             self._loop_extra = {**getattr(self, "_loop_extra", {}), id(n): getattr(self, "_loop_extra", {}).get(id(n), set()) | missed}
             del self.obls[n_obl:]
-            self.loop_ordinal -= 1
             return self.for_invariant(st, n, it)
         # exit
         e = st.fork()
         e.env = dict(havoc_env)
         e.assume(inv_at(e, f"(seq.len {sq})"))
         if "prefix(" in inv_src:
-            e.assume(f"(= (seq.extract {sq} 0 (seq.len {sq})) {sq})", fact=True)      # IS-MEM: prefix ends
+            e.assume(f"(= (seq.extract {mseq(sq)} 0 (seq.len {sq})) {mseq(sq)})", fact=True)      # IS-MEM: prefix ends
         out.append((e, None))
         return out
 
